@@ -60,6 +60,9 @@ impl GroupLocalProcessor {
         if first.variables_len() > first_value_count && first_value_count != 0 {
             return false;
         }
+        if first_value_count > first.variables_len() {
+            return false;
+        }
 
         let mut find_variables: FindVariables = first
             .iter_variables()
